@@ -369,20 +369,88 @@ SPECIAL_LEADING = ["#FASTLY recv", "#FASTLY fetch", "#FASTLY deliver", "# falco-
 SPECIAL_TRAILING = ["// falco-ignore", "# falco-ignore"]
 
 
+# ---------------------------------------------------------------- comment TEXT: the hostile alphabet
+# "@" is replaced by a unique tag (c<N>) so that comments stay distinguishable; a class without "@" has no tag.
+_LONG = "long " + "0123456789abcdef " * 260            # > 4096 bytes
+LINE_BODIES = [            # text behind the marker (#, //, ##, ...) up to the line feed
+    ("empty", ""),
+    ("blank", "   "),
+    ("opens-block", " @ see /* here"),
+    ("closes-block", " @ a */ b"),
+    ("ends-in-block", " @ see /* RFC 7234 */"),
+    ("ends-star-slash", " @ tmp */"),
+    ("is-block", "/* @ */"),                           # "#/* c1 */", "///* c1 */"
+    ("slashes", " @ http://example.com//a"),
+    ("sharps", " @ a # b ## c"),
+    ("ends-backslash", " @ C:\\dir\\"),
+    ("code", " set req.http.X = \"1\"; /* @ */"),
+    ("code-else", " @ } else {"),
+    ("code-open", " @ if (req.http.A) {"),
+    ("annotation", " @ @scope: recv, deliver"),
+    ("tabs", "\t@\tcol1\tcol2"),
+    ("trailing-blanks", " @ text  "),
+    ("trailing-tab", " @ text\t"),
+    ("multibyte", " @ \u00e9\u65e5\u672c\u8a9e \U0001F642 \u0301"),
+    ("open-quote", " @ \"unterminated"),
+    ("long-string", " @ {\"not a string\"}"),
+    ("percent", " @ 100% %20 %u00e9"),
+    ("long", " @ " + _LONG),
+]
+BLOCK_BODIES = [           # the whole comment
+    ("empty", "/**/"),
+    ("blank", "/* */"),
+    ("doc", "/** @ doc */"),
+    ("stars", "/*** @ ***/"),
+    ("ends-double-star", "/* @ **/"),
+    ("opens-inside", "/* @ a /* b */"),
+    ("line-markers", "/* @ // a # b */"),
+    ("starts-sharp", "/*# @ */"),                      # ("/*// x */" is not read as one comment by the lexer: "/*/" closes it)
+    ("code", "/* set req.http.X = \"1\"; @ } else { */"),
+    ("tabs", "/*\t@\tx\t*/"),
+    ("multibyte", "/* @ \u00e9\u65e5\u672c\u8a9e \U0001F642 */"),
+    ("long", "/* @ " + _LONG + "*/"),
+    ("ml-star", "/* @\n * second\n * third\n */"),
+    ("ml-star-flush", "/* @\n* second\n*/"),
+    ("ml-plain", "/* @\nsecond\nthird */"),
+    ("ml-indented", "/* @\n      second\n\tthird\n    */"),
+    ("ml-trailing-blanks", "/* @  \n second \t\n */"),
+    ("ml-empty-line", "/* @\n\n second */"),
+    ("ml-first-line-empty", "/*\n @\n*/"),
+    ("ml-code", "/* @\n   set req.http.X = \"1\";\n   } else {\n*/"),
+    ("ml-line-markers", "/* @\n// second\n# third */"),
+    ("ml-long", "/* @\n " + _LONG + "\n tail */"),
+]
+
+
 class Decorator:
-    def __init__(self, rng):
+    def __init__(self, rng, hostile=0.0):
         self.r = rng
         self.n = 0
         self.stats = {}
         self.stats_multi = {}
+        self.body_stats = {}
+        self.hostile = hostile        # share of comments whose text comes from the hostile alphabet
 
-    def text(self, kind, style=None):
-        """one comment; returns (source text, is_line_comment)"""
+    def text(self, kind, style=None, hostile=None):
+        """one comment; returns (source text, is_line_comment).
+        The BODY is drawn from the benign words of the first rounds or (share self.hostile, or when a class name is
+        forced) from the hostile alphabet LINE_BODIES / BLOCK_BODIES; self.body_stats counts the classes used."""
         self.n += 1
         tag = "c%d" % self.n
         style = style or self.r.choice(["#", "#", "//", "//", "/*", "##", "///", "#//", "//#"])
+        block = style == "/*"
+        if hostile is None and self.r.random() < self.hostile:
+            hostile = self.r.choice([c for c, _ in (BLOCK_BODIES if block else LINE_BODIES)])
+        if hostile is not None:
+            table = dict(BLOCK_BODIES if block else LINE_BODIES)
+            if hostile not in table:          # a class of the other family: take any of this one
+                hostile = self.r.choice(sorted(table))
+            key = ("block:" if block else "line:") + hostile
+            self.body_stats[key] = self.body_stats.get(key, 0) + 1
+            body = table[hostile].replace("@", tag)
+            return (body, False) if block else (style + body, True)
         words = self.r.choice(["", " note", " TODO: x", " a  b", " é日本", " /* not nested", " ## x", " \"quoted\"", " ;{}", " %20"])
-        if style == "/*":
+        if block:
             if kind == "leading" and self.r.random() < 0.3:
                 return "/* %s%s\n   * second line\n */" % (tag, words.replace("*/", "")), False
             return "/* %s%s */" % (tag, words.replace("/*", "").replace("*/", "")), False
@@ -438,10 +506,10 @@ class Decorator:
         return pat
 
     def decorate(self, src, toks, density=0.15, only=None, styles=None, specials=True, blank_lines=0.0, max_per_slot=2,
-                 line_inline=False, only_index=None, multi=0.0, pattern=None):
+                 line_inline=False, only_index=None, multi=0.0, pattern=None, body=None):
         """src: str; toks: parse_fmtlex(..., with_pos=True) of src (comments allowed, they are skipped).
         multi: probability that a chosen placeholder gets 2-3 comments in mixed styles / positions;
-        pattern: force this pattern at the chosen placeholder(s).
+        pattern: force this pattern at the chosen placeholder(s); body: force this class of the hostile alphabet.
         Returns (new source, [(slot name, comment text)] in source order) or (None, reason)."""
         sig = [t for t in toks if t["k"] == "T"]
         try:
@@ -482,6 +550,7 @@ class Decorator:
 
         inserts = []        # (offset, order, text)
         twin_inserts = []
+        line_closed = set()  # offsets (end of a token) behind which a line comment already runs to the end of the line
         self.inline_line = 0
         self.multi_slots = 0
         placed = []
@@ -498,7 +567,7 @@ class Decorator:
             if st == "/**":
                 self.n += 1
                 return "/* c%d\n   * second line \n */" % self.n, False, None
-            c, line = self.text("inline" if st == "/*" else kind, style=st)
+            c, line = self.text("inline" if st == "/*" else kind, style=st, hostile=body)
             return c, line, None
 
         for slot_no, (kind, idx, name) in enumerate(slots):
@@ -549,6 +618,8 @@ class Decorator:
                 if not end_known(t):
                     continue
                 o = off(t) + tok_len(t)
+                if o in line_closed:
+                    continue
                 nl = src.find("\n", o)
                 rest = src[o:nl if nl >= 0 else len(src)]
                 same = [(w, st) for w, st in pat if w == "same"]
@@ -564,6 +635,8 @@ class Decorator:
                     placed.append((name, c))
                     txt += " " + c
                     ended = line
+                if ended or own:
+                    line_closed.add(o)      # nothing more can be written behind this token on its line
                 need_nl = rest.strip() != "" or own
                 if need_nl:
                     txt += "\n"
@@ -593,8 +666,12 @@ class Decorator:
                         # behind the previous token, on its line
                         pt = sig[idx - 1]
                         po = off(pt) + tok_len(pt)
+                        if po in line_closed:
+                            continue
                         between = src[po:o]
                         c, line, _ = comment("trailing", style, True)
+                        if line:
+                            line_closed.add(po)
                         placed.append((name + "+prevline", c))
                         ptxt = " " + c
                         if "\n" not in between:
@@ -702,6 +779,31 @@ sub vcl_recv {
 '''
 
 
+# conditions and branches: flat compound conditions, nested compound groups, negations, a condition that wraps,
+# every spelling of else-if, comments-sensitive neighbours (values that wrap, postfix %, if-expressions)
+TEMPLATE_COND = '''sub vcl_recv {
+  if (req.http.A && req.http.B || req.http.C) {
+    esi;
+  } else if (req.http.A && (req.http.B || !(req.http.C && req.http.D))) {
+    esi;
+  } elseif (!req.http.A && req.http.B ~ "x" && req.http.Host == "www.example.com" && req.url ~ "^/some/long/path/that/wraps") {
+    esi;
+  } elsif ((req.http.A)) {
+    esi;
+  } else {
+    esi;
+  }
+  if (req.http.A == "a" "b" || std.strlen(req.http.B) > 10) {
+    set req.http.X = "a" req.http.B + "c" if(req.http.D, "e", "f") std.itoa(10);
+    set var.p = 10%;
+  }
+  if (!(req.http.A || req.http.B)) {
+    restart;
+  }
+}
+'''
+
+
 def one_comment_per_slot(rng, toks):
     """-> [(slot name, kind, style, text, twin text or None)]: TEMPLATE with one comment at one slot"""
     sig = [(t["ty"], t["lit"]) for t in toks if t["k"] == "T"]
@@ -733,4 +835,42 @@ def several_comments_per_slot(rng, toks):
             if text is None or len(placed) < 2:
                 continue
             out.append((name, kind, "%s%d" % (kind[0], pn), text, d.twin))
+    return out
+
+
+def hostile_comment_per_slot(rng, toks, per_slot=None, template=None, only=None, all_line_inline=False):
+    """-> [(slot name, kind, "block:<class>" | "line:<class>", text, twin)]: TEMPLATE with ONE comment whose text is of
+    one class of the hostile alphabet at ONE slot.  per_slot=None: every slot x every class (exhaustive);
+    otherwise per_slot classes of each family drawn per slot (every class is used about equally often).
+    template: the program (default TEMPLATE; toks are its tokens); only: predicate on the slot name."""
+    template = template or TEMPLATE
+    sig = [(t["ty"], t["lit"]) for t in toks if t["k"] == "T"]
+    slots = find_slots(sig)
+    out = []
+    fams = (("block", "/*", [c for c, _ in BLOCK_BODIES]), ("line", None, [c for c, _ in LINE_BODIES]))
+    for i, (kind, idx, name) in enumerate(slots):
+        if only is not None and not only(name):
+            continue
+        for fam, style, classes in fams:
+            if per_slot is None and fam == "line" and kind == "inline" and not all_line_inline:
+                # a line comment between two tokens of a statement is the recorded finding whatever its text: two classes
+                chosen = [classes[(2 * i) % len(classes)], classes[(2 * i + 1) % len(classes)]]
+            elif per_slot is None:
+                chosen = classes
+            else:
+                k0 = (i * per_slot) % len(classes)          # rotate: all classes are met over the slots
+                chosen = [classes[(k0 + j) % len(classes)] for j in range(per_slot)]
+                chosen[-1] = rng.choice(classes)
+            for cls in chosen:
+                # a leading placeholder is met twice: the comment on a line of its own, and on the line of the
+                # previous token (`} // c` before else, `; /* c */` before the next statement)
+                for where in (("own", "prev") if kind == "leading" else ("own",)):
+                    d = Decorator(rng)
+                    st = style or rng.choice(["#", "//", "//", "#", "##", "///"])
+                    text, placed = d.decorate(template, toks, density=1.1, styles=[st], specials=False, max_per_slot=1,
+                                              only_index=i, line_inline=True, body=cls,
+                                              pattern=[("prev", st)] if where == "prev" else None)
+                    if text is None or not placed:
+                        continue
+                    out.append((name, kind, "%s:%s%s" % (fam, cls, "@prev" if where == "prev" else ""), text, d.twin))
     return out
